@@ -17,6 +17,7 @@ require (
 	github.com/spf13/cobra v0.0.5
 	github.com/yourbasic/radix v0.0.0-20180308122924-cbe1cc82e907
 	github.com/yudai/gojsondiff v1.0.0
+	golang.org/x/net v0.0.0-20190620200207-3b0461eec859
 	gonum.org/v1/gonum v0.6.2
 )
 
@@ -35,7 +36,6 @@ require (
 	github.com/yudai/golcs v0.0.0-20170316035057-ecda9a501e82 // indirect
 	github.com/yudai/pp v2.0.1+incompatible // indirect
 	golang.org/x/exp v0.0.0-20220722155223-a9213eeb770e // indirect
-	golang.org/x/net v0.0.0-20190620200207-3b0461eec859 // indirect
 	golang.org/x/text v0.3.0 // indirect
 	gopkg.in/yaml.v2 v2.2.4 // indirect
 )
